@@ -62,6 +62,12 @@ type c16BadSelf struct { // refers to itself before the field that cannot be han
 	Next *c16BadSelf
 	C    chan int
 }
+
+// plainWriter implements io.Writer and nothing else.
+type plainWriter struct{ b []byte }
+
+func (w *plainWriter) Write(p []byte) (int, error) { w.b = append(w.b, p...); return len(p), nil }
+
 type c16Unsupported struct {
 	A int
 	C chan int
@@ -198,6 +204,13 @@ func c16Kinds() []c16Kind {
 				return obs(fmt.Sprintf("%x", buf.Bytes()), err)
 			}})
 		}
+		ops = append(ops, c16Op{"Encode(A-doc, plain io.Writer)", func(inst interface{}) string {
+			w := &plainWriter{}
+			enc := inst.(ce.Encoder)
+			enc.PrepareToEncode(w)
+			_, err := ev.TryDriveAll(enc, evLists["A-doc"])
+			return obs(fmt.Sprintf("%x", w.b), err)
+		}})
 		mk := func() interface{} { return ce.NewCBEEncoder(configuration.New()) }
 		if f == codec.CTE {
 			mk = func() interface{} { return ce.NewCTEEncoder(configuration.New()) }
@@ -227,6 +240,16 @@ func c16Kinds() []c16Kind {
 				return obs(fmt.Sprintf("%x", buf.Bytes()), err)
 			}})
 		}
+		// a destination that is only an io.Writer (bytes.Buffer is also an io.StringWriter: the writers take different paths)
+		ops = append(ops, c16Op{"Marshal(T1, plain io.Writer)", func(inst interface{}) string {
+			w := &plainWriter{}
+			err := inst.(ce.Marshaler).Marshal(c16T1{7, "plain"}, w)
+			return obs(fmt.Sprintf("%x", w.b), err)
+		}}, c16Op{"Marshal(list, plain io.Writer)", func(inst interface{}) string {
+			w := &plainWriter{}
+			err := inst.(ce.Marshaler).Marshal([]interface{}{int64(1), "two", []byte{3}}, w)
+			return obs(fmt.Sprintf("%x", w.b), err)
+		}})
 		ops = append(ops, c16Op{"Marshal(T1, failing writer)", func(inst interface{}) string {
 			w := &env.Writer{Script: env.Script{At: map[int]env.Answer{1: {Kind: env.Fail, Sticky: true}}}}
 			err := inst.(ce.Marshaler).Marshal(c16T1{1, "x"}, w)
